@@ -14,7 +14,7 @@ impl<const N: usize> Fifo<N> {
   }
   pub fn push(&mut self, v: u8) {
     assert!(self.len < N, "harness model overflow");
-    self.buf[(self.head + self.len) % N] = v;
+    self.buf[(self.head + self.len) & (N - 1)] = v; // N is a power of two
     self.len += 1;
   }
   pub fn pop(&mut self) -> Option<u8> {
@@ -22,7 +22,7 @@ impl<const N: usize> Fifo<N> {
       return None;
     }
     let v = self.buf[self.head];
-    self.head = (self.head + 1) % N;
+    self.head = (self.head + 1) & (N - 1);
     self.len -= 1;
     Some(v)
   }
@@ -68,4 +68,21 @@ pub fn waker(i: usize) -> Waker {
 }
 pub fn wakes(i: usize) -> u32 {
   WAKES[i].load(Relaxed)
+}
+
+
+/// Calls `f(i)` for the solver-chosen `i <= max` with `i` a constant on each path (concrete schedule /
+/// parameter per path, all of them in one SAT problem).
+#[cfg(kani)]
+pub fn with_pick<F: FnMut(u32)>(max: u32, mut f: F) {
+  let x: u32 = kani::any();
+  kani::assume(x <= max);
+  let mut i = 0;
+  while i <= max {
+    if x == i {
+      f(i);
+      return;
+    }
+    i += 1;
+  }
 }
